@@ -351,7 +351,7 @@ static CtlPlan gen_plan(const std::string &prop, uint64_t seed, const std::strin
     if (which >= 9) op = has_own ? "disable" : "enable";
     p.ops = {op};
     // census (fault-free, in-process)
-    C.files.clear(); SFile lib; lib.content = "ELF"; C.files[LIBPATH] = lib; if (p.exists) { SFile f; f.content = p.initial; C.files[PRELOAD] = f; }
+    C.files.clear(); C.tmp_counter = 0; C.next_fd = 10000; SFile lib; lib.content = "ELF"; C.files[LIBPATH] = lib; if (p.exists) { SFile f; f.content = p.initial; C.files[PRELOAD] = f; }
     ActOut c = run_action(op, -1, -1, 0, false);
     int n = c.calls, w = c.wcalls;
     p.extra.set("census_calls", n); p.extra.set("census_write_calls", w);
@@ -430,7 +430,7 @@ static Verdict check_disable(bool ex0, const std::string &old, const ActOut &o, 
 struct RunRes { Verdict v; std::string sig; bool nontrivial = false; J probes = J::obj(); uint64_t hash = 0; };
 static RunRes run_plan(const CtlPlan &p) {
     RunRes R;
-    C.files.clear(); C.tmp_counter = 0;
+    C.files.clear(); C.tmp_counter = 0; C.next_fd = 10000;
     SFile lib; lib.content = "ELF"; C.files[LIBPATH] = lib;
     if (p.exists) { SFile f; f.content = p.initial; C.files[PRELOAD] = f; }
     bool ex0 = p.exists; std::string cur0 = p.initial; uint64_t h = 1469598103934665603ULL;
